@@ -9,6 +9,9 @@ rac: multi-file / multi-scope programs on the real assembler (testing, separate)
 """
 import z3
 from contracts.common import *  # noqa
+from contracts import structure
+from contracts.structure import *  # noqa
+from contracts.deferred_c import *  # noqa
 from contracts import common, symbols_c, compiler_c
 from contracts.symbols_c import *  # noqa
 from contracts.compiler_c import unit_compile_block, unit_dispatch  # noqa
@@ -93,6 +96,9 @@ def units(tier):
     us.append(("dispatch[variable-of-another-file]", "unit_dispatch", dict(kind="variable-of-another-file")))
     for ctxt in ("file", "repeat"):
         us.append(("compile_block[%s]" % ctxt, "unit_compile_block", dict(context=ctxt, base_settled=False, start_kind="promise")))
+    # whole programs: the statement holds wherever a statement stands (repeat body, included / linked file, any block) - contracts/structure.py
+    us += structure.units()
+    us += structure.kernel_units()
     return us
 
 
@@ -108,6 +114,9 @@ def canary(eng):
 
 
 def replay(o, tree):
+    r_ = structure.replay(o, tree)
+    if r_ is not None:
+        return r_
     import os
     old = os.environ.get("PDPY11_SRC")
     os.environ["PDPY11_SRC"] = tree
